@@ -19,7 +19,7 @@ fn base(b: u8) -> bool {
     b != b'\r' && b != b'\n' && b != b'>'
 }
 
-// @verif prop=C12,C11 id=O12.4c tier=quick unwind=10 timeout=900 stubs="std::arch::x86_64::__cpuid_count->no optional CPU features (memchr runs its real SSE2 path)" bound="line b0 b1 CR LF followed by b2 (2 symbolic bases, CRLF), delivered through EVERY sequence of fill_buf windows: (line width, bases) == (4, 2) and the scanner stops after the LF" fns="fasta::io::indexer::consume_sequence_line,count_bases"
+// @verif prop=C12,C11 id=O12.4c tier=off off_reason="does not fit: >900 s / >14 GB with the real memchr SSE2 path under a symbolic window (a memchr stub is not applied by Kani to this call site)" unwind=10 timeout=900 stubs="std::arch::x86_64::__cpuid_count->no optional CPU features (memchr runs its real SSE2 path)" bound="line b0 b1 CR LF followed by b2 (2 symbolic bases, CRLF), delivered split in two at ANY offset (one solver-placed partial fill_buf window): (line width, bases) == (4, 2) and the scanner stops after the LF" fns="fasta::io::indexer::consume_sequence_line,count_bases"
 #[kani::proof]
 #[kani::unwind(10)]
 #[kani::stub(std::arch::x86_64::__cpuid_count, fake_cpuid)]
@@ -27,13 +27,13 @@ fn c12_fasta_consume_sequence_line_crlf_any_windows() {
     let b: [u8; 3] = kani::any();
     kani::assume(base(b[0]) && base(b[1]) && base(b[2]));
     let data = [b[0], b[1], b'\r', b'\n', b[2]];
-    let mut src = ChunkyBuf::new(&data);
+    let mut src = ChunkyBuf::new(&data).with_partial_budget(1);
     let (width, bases) = consume_sequence_line(&mut src).unwrap();
     assert!(width == 4 && bases == 2);
     assert_eq!(src.pos, 4);
 }
 
-// @verif prop=C12,C11 id=O12.4d tier=quick unwind=10 timeout=900 stubs="std::arch::x86_64::__cpuid_count->no optional CPU features (memchr runs its real SSE2 path)" bound="last line b0 b1 without terminator then EOF / then '>' (symbolic choice), every window sequence: (2, 2)" fns="consume_sequence_line"
+// @verif prop=C12,C11 id=O12.4d tier=off off_reason="does not fit: >900 s / >14 GB with the real memchr SSE2 path under a symbolic window (a memchr stub is not applied by Kani to this call site)" unwind=10 timeout=900 stubs="std::arch::x86_64::__cpuid_count->no optional CPU features (memchr runs its real SSE2 path)" bound="last line b0 b1 without terminator then EOF / then '>' (symbolic choice), split in two at any offset: (2, 2)" fns="consume_sequence_line"
 #[kani::proof]
 #[kani::unwind(10)]
 #[kani::stub(std::arch::x86_64::__cpuid_count, fake_cpuid)]
@@ -41,7 +41,7 @@ fn c12_fasta_consume_sequence_line_unterminated() {
     let b: [u8; 2] = kani::any();
     kani::assume(base(b[0]) && base(b[1]));
     let data = [b[0], b[1], b'\n', b'>'];
-    let mut src = ChunkyBuf::new(&data);
+    let mut src = ChunkyBuf::new(&data).with_partial_budget(1);
     let (width, bases) = consume_sequence_line(&mut src).unwrap();
     assert!(width == 3 && bases == 2);
     // next call is at a definition line: consumes nothing
